@@ -214,6 +214,32 @@ def drv(keys, ops):
                     lib.add((x for x in [b]), fail_on_duplicate_key=True)
                 except ValueError:
                     raised = True
+        elif name in ("remove_copy", "replace_copy"):
+            # the argument is an EQUAL copy of a held block (not the object itself): the first equal block goes, and
+            # the key index follows
+            h = arg(lib, u, op[1])
+            if h is None:
+                skip = True
+            else:
+                import copy as _copy
+                twin = _copy.deepcopy(h)
+                p = idx_of(pre, twin)
+                if p < 0:
+                    should_raise = True
+                    expected = pre
+                elif name == "remove_copy":
+                    expected = pre[:p] + pre[p + 1:]
+                else:
+                    new = arg(lib, u, op[2])
+                    dup = live_collision(pre, new, p)
+                    expected = pre[:p] + [("dup", new) if dup else new] + pre[p + 1:]
+                try:
+                    if name == "remove_copy":
+                        lib.remove(twin)
+                    else:
+                        lib.replace(twin, arg(lib, u, op[2]), fail_on_duplicate_key=False)
+                except ValueError:
+                    raised = True
         elif name == "remove":
             b = arg(lib, u, op[1])
             if b is None:
@@ -408,6 +434,10 @@ def op_space():
         for new in (("u", 1), ("u", 3), ("u", 4), ("u", 0)):
             ops.append(("replace", old, new))
             ops.append(("replacef", old, new))
+    ops.append(("remove_copy", ("h", 0)))
+    ops.append(("remove_copy", ("h", 1)))
+    ops.append(("replace_copy", ("h", 0), ("u", 4)))
+    ops.append(("replace_copy", ("h", 0), ("u", 1)))
     ops.append(("remove_all",))
     ops.append(("add_all",))
     ops.append(("addf_gen", ("u", 0)))
